@@ -10,13 +10,17 @@
     server bytes <hex32>…                    → ok <hex bytes|-> <hex32>…      (encode, then decode)
     server unbytes <hex bytes|->             → ok <hex32>… | refused           (decode only)
 
-  events:  A:<id>:<t.t.t|->   E:<id>   T:<id>   R:<n>   D
+  events:  A:<id>:<t.t.t|->   E:<id>   T:<id>   R:<n>   D   L:<id>
+           (L = the caller of request <id> went away: Model/ServerLeave.lean; `trace` then lists the
+            responses DELIVERED, `pending` counts the callers still waiting, and `judge` expects no
+            response for a caller that left)
   mode fp  : the row model is `Tak.Server.fingerprint`, responses are written `<value>/<i.i.i|->`
   mode cls : the row model maps a position to `c<k>/c<k>`, k = smallest arrived id with these tokens (used when
              the implementation serves a real network and the harness has classified each
              response by the local evaluation it equals)
 -/
 import TakVerif.Model.Server
+import TakVerif.Model.ServerLeave
 
 namespace Tak.Driver.Server
 
@@ -39,6 +43,21 @@ def parseEvent (s : String) : Option Event :=
   | ["R", n] => n.toNat?.map .run
   | ["D"] => some .done
   | _ => none
+
+def parseLEvent (s : String) : Option LEvent :=
+  match s.splitOn ":" with
+  | ["L", id] => id.toNat?.map .leave
+  | _ => (parseEvent s).map .ev
+
+def baseEvents : List LEvent → List Event
+  | [] => []
+  | .ev e :: es => e :: baseEvents es
+  | .leave _ :: es => baseEvents es
+
+def leftOf : List LEvent → List Nat
+  | [] => []
+  | .leave i :: es => i :: leftOf es
+  | .ev _ :: es => leftOf es
 
 def showFp (r : List Nat × Nat) : String := s!"{r.2}/{showDots r.1}"
 
@@ -77,14 +96,15 @@ def splitBar (l : List String) : List (List String) :=
     | cur :: rest => if t = "|" then [] :: cur :: rest else (t :: cur) :: rest) [[]]
 
 def handleTrace (cap : Nat) (mode : String) (evs : List String) : Option String := do
-  let es ← evs.mapM parseEvent
+  let les ← evs.mapM parseLEvent
+  let es := baseEvents les
   let f ← modelOf mode es
-  match checkTrace cap f init 0 es with
+  match lcheckTrace cap f linit 0 les with
   | .error (i, msg) => pure s!"invalid:{msg}@{i}"
   | .ok s =>
     let fair := if traceFair cap f init es then 1 else 0
-    let ans := s.answered.map fun (i, r) => s!"{i}={r}"
-    pure (" ".intercalate (["ok", s!"fair={fair}", s!"pending={s.pending.length}"] ++ ans))
+    let ans := s.delivered.map fun (i, r) => s!"{i}={r}"
+    pure (" ".intercalate (["ok", s!"fair={fair}", s!"pending={s.waiting.length}"] ++ ans))
 
 /-- responses are written `c₁/c₂/…`: some component of `resp` differs from `own`'s and equals
     `other`'s -/
@@ -101,11 +121,13 @@ def handleJudge (cap : Nat) (mode : String) (rest : List String) : Option String
   let _ := cap
   match splitBar rest with
   | [evs, dels, [idle]] =>
-    let es ← evs.mapM parseEvent
+    let les ← evs.mapM parseLEvent
+    let es := baseEvents les
     let f ← modelOf mode es
     let ds ← dels.mapM parseDelivery
     let idle ← (if idle = "1" then some true else if idle = "0" then some false else none)
-    let arr := arrivalsOf es
+    let left := leftOf les
+    let arr := (arrivalsOf es).filter fun r => !left.contains r.id
     match judge f borrowedStr arr (servedOf es) ds idle with
     | .ok => pure "ok"
     | .wrongRecipient id o =>
